@@ -141,7 +141,7 @@ def install_c19(reg):
             "cells": f"out_method(-1) == 'add_row' and str(out_arg(-1, 0)) == f'{{{_Q}[0] + {_Q}[1]:n}}%' and "
                      f"str(out_arg(-1, 1)) == f'{{{_Q}[2]:n}}%' and str(out_arg(-1, 2)) == f'{{{_Q}[3]:n}}%'",
         },
-        props=("C19",),
+        rt_trace=True, props=("C19",),
     )
 
 
